@@ -55,6 +55,8 @@ class Scenario:
     dead_after_minutes: float = 1.0
     line_files: tuple[str, ...] = ("mem_orchestrator.py", "mem_broker.py")
     line_functions: tuple[str, ...] | None = None
+    fine_ops: tuple[str, ...] | None = ("set_status", "retrieve")   # ops whose internals are preemptible
+    spawn_workers: bool = True          # pollers start a worker actor per yielded invocation
 
     def ckey(self, inv: str) -> str:
         """The running-concurrency key of an invocation ("" = not controlled)."""
@@ -232,6 +234,8 @@ class World:
                     for inv in self.app.orchestrator.get_invocations_to_run(n, rctx):
                         name = self.namer.name(inv.invocation_id)
                         self.rec.ghost("yielded", inv=name, runner=rname)
+                        if not self.scn.spawn_workers:
+                            continue
                         if inline_run or s is None:
                             self._run_inv(inv, rctx)
                         else:
@@ -317,7 +321,10 @@ class World:
         self.rec.emit("config", {}, cfg=scn.config())
         self.do_setup()
         tracer = instrument.LineTracer(scn.line_files, scn.line_functions) if scn.granularity == "line" else None
+        instrument.FINE_OPS = set(scn.fine_ops) if scn.fine_ops is not None else None
         outcome = "done"
+        preempted: list[str] = []
+        kinds_seen: dict[str, int] = {}
         with Scheduler(kinds) as s:
             self.sched = s
             instrument.register_probes(s)
@@ -349,6 +356,13 @@ class World:
                 if c is None:
                     outcome = "stopped"
                     break
+                kind = (s.actors[c].pending or {}).get("kind", "?")
+                kinds_seen[kind] = kinds_seen.get(kind, 0) + 1
+                last = s.trace[-1] if s.trace else None
+                if last is not None and last != c and last in en:
+                    pend = s.actors[last].pending or {}
+                    lab = str(pend.get("label", ""))
+                    preempted.append(":".join(lab.split(":")[:2]) if pend.get("kind") == "line" else lab)
                 s.step(c)
             else:
                 outcome = "steps"
@@ -370,7 +384,8 @@ class World:
             for x in real_q:
                 self.app.broker.route_invocation(self.namer.real(x))
         self.rec.emit("final", {"outcome": outcome}, real_queue=real_q, hist=self.history())
-        return {"events": self.rec.events, "schedule": schedule, "outcome": outcome, "errors": errors}
+        return {"events": self.rec.events, "schedule": schedule, "outcome": outcome, "errors": errors,
+                "preempted": preempted, "kinds": kinds_seen}
 
 
 def execute(scn: Scenario, policy: Callable[[Scheduler, list[str]], str | None], **kw: Any) -> dict[str, Any]:
